@@ -3,7 +3,7 @@ Theorems on F3.Validator (executable model of gpbft/validator.go + internal/cach
 F3.Spec.ValidMsg.validMsg; h_validate drives the real gpbft.Participant validator (warm participant with tiny
 caches vs fresh participants) on really signed messages and their corruptions / recombinations."""
 
-NONTRIVIAL = r"^(v|t|cv|h) "
+NONTRIVIAL = r"^(v|t|tt|cv|h) "
 
 
 def search(ctx):
